@@ -126,7 +126,24 @@ func sameField(a, b *Node) bool {
 func (g *PredGen) Atom(depth int) *Node {
 	r := g.R
 	for {
-		switch r.Intn(13) {
+		switch r.Intn(14) {
+		case 13: // two prefix tests, one prefix extending the other, in either order, joined either way
+			if g.NoKeyPin || len(g.KeyLits) == 0 {
+				continue
+			}
+			l := g.KeyLits[r.Intn(len(g.KeyLits))]
+			if len(l) < 2 {
+				continue
+			}
+			short := l[:r.Range(1, len(l)-1)]
+			a, b := Bin("^=", Key(), Str(l)), Bin("^=", Key(), Str(short))
+			if r.Bool() {
+				a, b = b, a
+			}
+			if r.Bool() {
+				return Or(a, b)
+			}
+			return And(a, b)
 		case 12: // two key ranges that meet in exactly one key
 			if g.NoKeyPin || len(g.KeyLits) == 0 {
 				continue
